@@ -395,10 +395,10 @@ fn run_episode(
 
 /// Every instruction address of a stretch is visited at its first this-many occurrences: quick / thorough.
 const PREEMPT_OCC_MAX: u32 = 1;
-const PREEMPT_OCC_MAX_THOROUGH: u32 = 3;
+const PREEMPT_OCC_MAX_THOROUGH: u32 = 2;
 /// Upper bound on the positions swept per visit (beyond it: first occurrences only, thinned out evenly).
 const PREEMPT_POSITIONS_PER_VISIT: usize = 900;
-const PREEMPT_POSITIONS_PER_VISIT_THOROUGH: usize = 5000;
+const PREEMPT_POSITIONS_PER_VISIT_THOROUGH: usize = 2500;
 const PREEMPT_SPLIT: u64 = 2;
 const PREEMPT_EPISODES: u64 = 32;
 const PREEMPT_EPISODES_THOROUGH: u64 = 192;
@@ -491,6 +491,7 @@ impl PreemptSweep {
                             victim: pair.victim[..pair.skip_ops].to_vec(),
                             intruder: pair.intruder.clone(),
                             systematic: pair.systematic,
+                            core: pair.core,
                             skip_ops: 0,
                             mailboxes: pair.mailboxes,
                         };
@@ -517,7 +518,7 @@ impl PreemptSweep {
                 2 => {
                     if self.visit > self.visits {
                         // second pass for systematic pairs: the intruder is itself parked in the middle of its build
-                        if self.pass == 0 && self.second_pass && self.pairs[self.pos].systematic && self.intruder_visits > 1 {
+                        if self.pass == 0 && self.second_pass && self.pairs[self.pos].core && self.intruder_visits > 1 {
                             self.pass = 1;
                             self.parked = 1 + self.rng.below(self.intruder_visits);
                             self.visit = self.skip_visits + 1;
